@@ -826,7 +826,7 @@ func (vfs *MemFS) removeAll(parent *dirNode) error {
 		return vfs.err.PermDenied
 	}
 
-	for _, child := range parent.children {
+	for name, child := range parent.children {
 		if c, ok := child.(*dirNode); ok {
 			err := vfs.removeAll(c)
 			if err != nil {
@@ -837,6 +837,9 @@ func (vfs *MemFS) removeAll(parent *dirNode) error {
 		child.Lock()
 		child.delete()
 		child.Unlock()
+
+		// what has been removed is no longer listed if a later entry can't be removed.
+		parent.removeChild(name)
 	}
 
 	return nil
